@@ -4,6 +4,11 @@ NOTES = ("All checks run /venv/bin/python on bitstring imported from /repo's wor
          "known_findings.json lists genuine defects (open: reported as KNOWN-FINDING; fixed: suppress nothing).")
 NOT_APPLICABLE = {}
 CHECKS = {
+ 'C08': dict(
+    text="Bounded exhaustive differential exploration: for every content in the bound, every class, msb0 and lsb0, an object is built through each of ~40 construction routes (text forms, bytes/bytearray/memoryview/array/bitarray/BytesIO with offset and length, iterables, string-cache hit, slices/copies of larger objects, result of mutation, files by name and handle with offset in {none,0,3,8} and a length shorter than the file) and the whole API battery (~125 non-mutating, 20 stream and 44 mutating events incl. out-of-range arguments) is executed on it; observation (value or exception class) and post-state must equal those of the canonical twin Cls(bin=...).",
+    design_ref="DESIGN.md section 4 C08",
+    note="Differential: the twin built with bin= is the reference, so a defect common to all routes is invisible here (C01/C03/C07... judge absolute values). repr() excluded (shows the file name by design).",
+    technique="explicit-state bounded exhaustive enumeration (product explorer), differential oracle against a canonical twin"),
  'C13': dict(
     text="Bounded exhaustive exploration over pairs and triples: every ordered pair of objects (class x content x ~40 construction routes incl. file-backed with offset/length x pos) with equal content, and every object against representatives of every other content, is compared with ==, != in both directions, and for hashable classes by hash, set and dict membership; long contents around the 2000/3600-bit hash thresholds with single-bit and length variants; every promotable and non-promotable right operand; transitivity over all triples of small contents.",
     design_ref="DESIGN.md section 4 C13",
